@@ -708,6 +708,40 @@ fn main() {
         s.sample(json!({"alphabet": "Mat4", "chain": format!("{:?}", jobs[0].1)}));
     });
 
+    rep.section("floats: a translation of any magnitude leaves directions alone (f32, f64, Mat4 and Mat3, both layouts)",
+        "linear parts L built with the real builders (identity; scaled_3d(2,3,1/2); rotated_z(0.7) then scaled_3d; rotated_x(1.1) then rotated_y(-0.4)) x translations t in {0, (1e4,-2e4,5e3), (1e8,-2e8,5e7), (2^60,2^61,-2^59)} applied with the real translated_3d (Mat3: translated_2d) x 5 directions: mul_direction (mul_direction_2d) of the translated matrix must equal, as numbers, that of the untranslated one (the translation column only ever meets w = 0, an exact zero), and mul_point must be L*p + t within 4 ulp of the largest term; a rewrite that lets the translation enter the sum and subtracts it again loses the direction; non-trivial: t != 0", true, false, |s| {
+        s.require_classes(&["huge translation", "zero translation"]);
+        macro_rules! dirs { ($F:ty, $L:ident, $lay:literal) => {{
+            type M4 = $L::Mat4<$F>; type M3 = $L::Mat3<$F>;
+            let lin4: Vec<(&str, M4)> = vec![("identity", M4::identity()), ("scale", M4::identity().scaled_3d(Vec3 { x: 2.0, y: 3.0, z: 0.5 })),
+                ("rotz*scale", M4::identity().rotated_z(0.7).scaled_3d(Vec3 { x: 2.0, y: 3.0, z: 0.5 })), ("rotx*roty", M4::identity().rotated_x(1.1).rotated_y(-0.4))];
+            let ts: [[$F; 3]; 4] = [[0.0, 0.0, 0.0], [1e4, -2e4, 5e3], [1e8, -2e8, 5e7], [1152921504606846976.0, 2305843009213693952.0, -576460752303423488.0]];
+            let ds: [[$F; 3]; 5] = [[1.0, 2.0, 3.0], [0.1, -0.3, 0.7], [1e-3, 0.0, 5.0], [-4.0, 0.25, 0.0], [1e3, 1e3, -1e3]];
+            for (ln, l) in &lin4 { for t in &ts { for d in &ds {
+                let m = l.translated_3d(Vec3 { x: t[0], y: t[1], z: t[2] });
+                let (dv, big) = (Vec3 { x: d[0], y: d[1], z: d[2] }, t[0] != 0.0);
+                s.eval(big); s.class(if big { "huge translation" } else { "zero translation" });
+                let (got, want) = (m.mul_direction(dv), l.mul_direction(dv));
+                if !(got.x == want.x && got.y == want.y && got.z == want.z) { s.violation_w(&format!("Mat4<{}>::mul_direction<{}>", $lay, stringify!($F)), "translation-changes-a-direction", json!({"linear_part": ln, "translation": [t[0] as f64, t[1] as f64, t[2] as f64], "direction": [d[0] as f64, d[1] as f64, d[2] as f64], "got": [got.x as f64, got.y as f64, got.z as f64], "want": [want.x as f64, want.y as f64, want.z as f64]}), (t[0].abs() > 1e5) as u64); }
+                let (gp, lp) = (m.mul_point(dv), l.mul_point(dv));
+                for (g, (w0, tt)) in [gp.x, gp.y, gp.z].into_iter().zip([(lp.x, t[0]), (lp.y, t[1]), (lp.z, t[2])]) {
+                    let (want, tol) = (w0 as f64 + tt as f64, 4.0 * <$F>::EPSILON as f64 * (w0.abs() as f64).max(tt.abs() as f64).max(1.0));
+                    if !((g as f64 - want).abs() <= tol) { s.violation_w(&format!("Mat4<{}>::mul_point<{}>", $lay, stringify!($F)), "point-not-moved-by-the-translation", json!({"linear_part": ln, "translation": [t[0] as f64, t[1] as f64, t[2] as f64], "point": [d[0] as f64, d[1] as f64, d[2] as f64], "got": g as f64, "want": want}), 1); }
+                }
+            } } }
+            let lin3: Vec<(&str, M3)> = vec![("identity", M3::identity()), ("rotz*scale", M3::identity().rotated_z(0.7).scaled_3d(Vec3 { x: 2.0, y: 3.0, z: 1.0 }))];
+            for (ln, l) in &lin3 { for t in &ts { for d in &ds {
+                let m = l.translated_2d(Vec2 { x: t[0], y: t[1] });
+                let dv = Vec2 { x: d[0], y: d[1] };
+                s.eval(t[0] != 0.0);
+                let (got, want) = (m.mul_direction_2d(dv), l.mul_direction_2d(dv));
+                if !(got.x == want.x && got.y == want.y) { s.violation_w(&format!("Mat3<{}>::mul_direction_2d<{}>", $lay, stringify!($F)), "translation-changes-a-direction", json!({"linear_part": ln, "translation": [t[0] as f64, t[1] as f64], "direction": [d[0] as f64, d[1] as f64], "got": [got.x as f64, got.y as f64], "want": [want.x as f64, want.y as f64]}), (t[0].abs() > 1e5) as u64); }
+            } } }
+        }} }
+        dirs!(f32, rm, "row"); dirs!(f32, cm, "col"); dirs!(f64, rm, "row"); dirs!(f64, cm, "col");
+        s.sample(json!({"matrix": "identity.rotated_z(0.7).scaled_3d((2,3,1/2)).translated_3d((1e8,-2e8,5e7))", "direction": [1, 2, 3], "law": "mul_direction == the same without the translation, exactly"}));
+    });
+
     rep.section("Transform: wider alphabets (every rational axis, negative-w quaternions, zero / negative / huge / tiny scales), Default fields and float defaults",
         "positions {0, (1,-2,3), (-1/2,1000,0)} x unit quaternions (cos h, axis sin h) for every 4th (quick) / every one (thorough) of the 103 rational unit axes x all 12 rational half-angles (incl. w < 0 and w = -1) x scales {(1,1,1), (-1,-1,-1), (0,0,0), (1/3,1/3,1/3), (0,1,1), (2,0,-1), (1,-3,1/2), (1000,1/1000,1), (-2,-2,3)}: the decoded matrix (both layouts) has last row (0,0,0,1) and maps 6 probe points (incl. negative and fractional) to position + R(orientation)(scale . p); where the known T*S*R order finding applies, every probe must still equal the T*S*R map exactly (same site|class as the first Transform section); Transform::default() has position 0, orientation (0,0,0,1), scale 1 field by field for <X,X,X>, <i32,f32,u8>, <f64,f64,f64> and converts to the exact identity in f32 and f64, both layouts; non-trivial: non-identity orientation", true, false, |s| {
         s.require_classes(&["uniform-scale", "non-uniform-scale", "zero-scale-lane", "negative-scale-lane", "huge-or-tiny-scale", "negative-w-quaternion", "axis-aligned-rotation", "oblique-rotation"]);
